@@ -200,39 +200,49 @@ Lemma dowork_checks c0 tdrv tis c w s s1 cbs1 :
   CW c0 (mkW (w_now w) (w_now w) (w_hb w) (w_hbenv w) (w_bound w || (keep && (w_hbenv w =? 1)))
              (w_inactive w || has_err EWasInactive cbs) (closed s2)) s2.
 Proof. intros Hd Hi W (A1 & A2 & A3 & A4 & A5 & A6 & A7) Hcid E1. cbn zeta.
-  pose proof (heartbeat_check_spec c s1) as Hs. cbn zeta in Hs. destruct Hs as (S1 & S2 & S3 & S4 & S5 & S6 & S7 & S8).
-  pose proof (heartbeat_check_ids c s1) as [_ Hc2].
   destruct W.
+  (* the arithmetic facts, stated while the context is small *)
+  assert (T1 : t_work s1 <= w_tprev w) by (clear - A2 W_tw0; lia).
+  assert (T2 : t_keep s1 <= w_tprev w) by (clear - A3 W_tk0; lia).
+  assert (T3 : w_now w = now s1) by (clear - A1 W_now0; congruence).
+  assert (T4 : w_hb w = driver_hb s1) by (clear - A4 W_hb0; congruence).
+  assert (T5 : w_hbenv w = hb_env s1) by (clear - A5 W_env0; congruence).
+  assert (T6 : w_tprev w <= now s1) by (clear - A1 W_tn0; lia).
+  assert (Hkeep : (w_tprev w + KEEPALIVE_TIMEOUT_MS <? w_now w) = true -> keep_due s1 = true).
+  { unfold keep_due. clear - T2 T3. intros H. rewrite T3 in H. lia. }
   assert (Hh1 : has_err EWasInactive cbs1 = false).
   { destruct (has_err EWasInactive cbs1) eqn:E; auto. apply has_err_in in E. apply E1 in E. discriminate. }
-  assert (Hkeep : (w_tprev w + KEEPALIVE_TIMEOUT_MS <? w_now w) = true -> keep_due s1 = true).
-  { unfold keep_due. intros H. lia. }
-  repeat split.
-  - intros Hst. destruct (heartbeat_check_service c s1) as [B1 B2]; [lia|].
+  pose proof (heartbeat_check_spec c s1) as Hs. cbn zeta in Hs. destruct Hs as (S1 & S2 & S3 & S4 & S5 & S6 & S7 & S8).
+  pose proof (heartbeat_check_ids c s1) as [_ Hc2].
+  split; [|split; [|split]].
+  - intros Hst.
+    assert (Hlt : t_work s1 + c_tis c < now s1) by (clear - Hst T1 T3 Hi; rewrite T3 in Hst; lia).
+    destruct (heartbeat_check_service c s1 Hlt) as [B1 B2].
     rewrite has_err_app. apply has_err_in in B1. rewrite B1, B2, Bool.orb_true_r. reflexivity.
   - intros Hsi. rewrite has_err_app, Hh1, S8. cbn [orb]. unfold silent_now.
     apply andb_prop in Hsi. destruct Hsi as [Hsi H3]. apply andb_prop in Hsi. destruct Hsi as [H1 H2].
-    rewrite (Hkeep H1). cbn [andb]. lia.
+    rewrite (Hkeep H1). cbn [andb]. rewrite <- T4, <- T3, Hd, H2, H3. reflexivity.
   - intros Hlo. apply andb_prop in Hlo. destruct Hlo as [Hlo H3]. apply andb_prop in Hlo. destruct Hlo as [H1 H2].
-    destruct (heartbeat_lost_reported c s1) as [B1 B2].
-    + specialize (Hkeep H1). unfold keep_due in Hkeep. lia.
-    + rewrite A6. auto.
-    + apply Bool.negb_true_iff in H3. lia.
-    + rewrite has_err_app. apply has_err_in in B1. rewrite B1, B2, Bool.orb_true_r. reflexivity.
-  - congruence.
-  - cbn. congruence.
-  - reflexivity.
-  - cbn. lia.
-  - cbn. rewrite S3. destruct (keep_due s1); lia.
-  - cbn. lia.
-  - cbn. congruence.
-  - cbn. congruence.
-  - cbn. intros Hb. rewrite S6. apply Bool.orb_true_iff in Hb. destruct Hb as [Hb|Hb].
-    + rewrite A6, (W_bound0 Hb). reflexivity.
-    + apply andb_prop in Hb. destruct Hb as [H1 H2]. rewrite (Hkeep H1). rewrite S5 in *. rewrite A5, <- W_env0, H2. apply Bool.orb_true_r.
-  - cbn. intros Hin. rewrite S7. apply Bool.orb_true_iff in Hin. destruct Hin as [Hin|Hin].
-    + rewrite A7, (W_inactive0 Hin). reflexivity.
-    + rewrite has_err_app, Hh1, S8 in Hin. cbn [orb] in Hin. rewrite Hin. cbn. apply Bool.andb_false_r. Qed.
+    assert (K1 : t_keep s1 + KEEPALIVE_TIMEOUT_MS < now s1) by (specialize (Hkeep H1); unfold keep_due in Hkeep; clear - Hkeep; lia).
+    assert (K2 : hb_bound s1 = true) by (rewrite A6; auto).
+    assert (K3 : hb_env s1 <> 1) by (apply Bool.negb_true_iff in H3; rewrite T5 in H3; clear - H3; lia).
+    destruct (heartbeat_lost_reported c s1 K1 K2 K3) as [B1 B2].
+    rewrite has_err_app. apply has_err_in in B1. rewrite B1, B2, Bool.orb_true_r. reflexivity.
+  - constructor; cbn [w_now w_tprev w_hb w_hbenv w_bound w_inactive w_closed].
+    + congruence.
+    + congruence.
+    + reflexivity.
+    + rewrite S2, T3. clear. lia.
+    + rewrite S3, T3. destruct (keep_due s1); [clear; lia|exact T6 || (clear - T2 T6; lia)].
+    + rewrite S1, T3. clear. lia.
+    + congruence.
+    + congruence.
+    + intros Hb. rewrite S6. apply Bool.orb_true_iff in Hb. destruct Hb as [Hb|Hb].
+      * rewrite A6, (W_bound0 Hb). reflexivity.
+      * apply andb_prop in Hb. destruct Hb as [H1 H2]. rewrite (Hkeep H1). rewrite <- T5, H2. apply Bool.orb_true_r.
+    + intros Hin. rewrite S7. apply Bool.orb_true_iff in Hin. destruct Hin as [Hin|Hin].
+      * rewrite A7, (W_inactive0 Hin). reflexivity.
+      * rewrite has_err_app, Hh1, S8 in Hin. cbn [orb] in Hin. rewrite Hin. cbn. apply Bool.andb_false_r. Qed.
 
 Lemma core_step c0 tdrv tis c w s o :
   c_tdrv c = tdrv -> c_tis c = tis -> inv s -> CW c0 w s -> tick_ok o ->
@@ -282,10 +292,13 @@ Proof. intros Hd Hi I W Ht.
       pose proof (heartbeat_check_no_hang c s) as Hh.
       destruct (heartbeat_check c s) as [[[s2 cbs2] hang2] rr]. cbn [fst snd] in *. subst hang2. cbn in Es. inversion Es; subst s' r cbs cmds. clear Es.
       cbn [is_okr negb].
-      destruct (w_tprev w + tis <? w_now w) eqn:E1; [rewrite (C1 eq_refl)|]; cbn [andb negb];
-      (destruct ((w_tprev w + KEEPALIVE_TIMEOUT_MS <? w_now w) && (0 <=? w_hb w) && (w_hb w + tdrv <? w_now w)) eqn:E2; [rewrite (C2 eq_refl)|]); cbn [andb negb];
-      (destruct ((w_tprev w + KEEPALIVE_TIMEOUT_MS <? w_now w) && w_bound w && negb (w_hbenv w =? 1)) eqn:E3; [rewrite (C3 eq_refl)|]); cbn [andb negb];
-      (eexists; split; [reflexivity|exact C4]).
+      assert (Q1 : (w_tprev w + tis <? w_now w) && negb (has_err EServiceTimeout cbs2 && closed s2) = false)
+        by (destruct (w_tprev w + tis <? w_now w); [rewrite (C1 eq_refl)|]; reflexivity).
+      assert (Q2 : (w_tprev w + KEEPALIVE_TIMEOUT_MS <? w_now w) && (0 <=? w_hb w) && (w_hb w + tdrv <? w_now w) && negb (has_err EWasInactive cbs2) = false)
+        by (destruct ((w_tprev w + KEEPALIVE_TIMEOUT_MS <? w_now w) && (0 <=? w_hb w) && (w_hb w + tdrv <? w_now w)); [rewrite (C2 eq_refl)|]; reflexivity).
+      assert (Q3 : (w_tprev w + KEEPALIVE_TIMEOUT_MS <? w_now w) && w_bound w && negb (w_hbenv w =? 1) && negb (has_err EHeartbeatLost cbs2 && closed s2) = false)
+        by (destruct ((w_tprev w + KEEPALIVE_TIMEOUT_MS <? w_now w) && w_bound w && negb (w_hbenv w =? 1)); [rewrite (C3 eq_refl)|]; reflexivity).
+      rewrite Q1, Q2, Q3. cbn [andb]. eexists; split; [reflexivity|exact C4].
     + inversion Es; subst. eexists. split; [reflexivity|]. destruct W. constructor; cbn in *; try congruence; try lia.
     + inversion Es; subst. eexists. split; [reflexivity|]. destruct W. constructor; cbn in *; try congruence; try lia.
     + (* an event *)
@@ -304,11 +317,15 @@ Proof. intros Hd Hi I W Ht.
                     has_err EClientTimeout (cbs1 ++ cbs2) && closed s2 = true).
       { destruct e; try discriminate. intros H. apply andb_prop in H. destruct H as [H1 H2]. apply Bool.negb_true_iff in H2.
         destruct (Hown cid eq_refl ltac:(lia) H2) as [B1 B2]. rewrite has_err_app. apply has_err_in in B1. rewrite B1, (Hm2 B2). reflexivity. }
-      destruct (w_tprev w + tis <? w_now w) eqn:E1; [rewrite (C1 eq_refl)|]; cbn [andb negb];
-      (destruct (match e with EvClientTimeout cid => (cid =? c0) && negb (closed s) | _ => false end) eqn:E0; [rewrite (Hto eq_refl)|]); cbn [andb negb];
-      (destruct ((w_tprev w + KEEPALIVE_TIMEOUT_MS <? w_now w) && (0 <=? w_hb w) && (w_hb w + tdrv <? w_now w)) eqn:E2; [rewrite (C2 eq_refl)|]); cbn [andb negb];
-      (destruct ((w_tprev w + KEEPALIVE_TIMEOUT_MS <? w_now w) && w_bound w && negb (w_hbenv w =? 1)) eqn:E3; [rewrite (C3 eq_refl)|]); cbn [andb negb];
-      (eexists; split; [reflexivity|exact C4]).
+      assert (Q1 : (w_tprev w + tis <? w_now w) && negb (has_err EServiceTimeout (cbs1 ++ cbs2) && closed s2) = false)
+        by (destruct (w_tprev w + tis <? w_now w); [rewrite (C1 eq_refl)|]; reflexivity).
+      assert (Q0 : (match e with EvClientTimeout cid => (cid =? c0) && negb (closed s) | _ => false end) && negb (has_err EClientTimeout (cbs1 ++ cbs2) && closed s2) = false)
+        by (destruct (match e with EvClientTimeout cid => (cid =? c0) && negb (closed s) | _ => false end); [rewrite (Hto eq_refl)|]; reflexivity).
+      assert (Q2 : (w_tprev w + KEEPALIVE_TIMEOUT_MS <? w_now w) && (0 <=? w_hb w) && (w_hb w + tdrv <? w_now w) && negb (has_err EWasInactive (cbs1 ++ cbs2)) = false)
+        by (destruct ((w_tprev w + KEEPALIVE_TIMEOUT_MS <? w_now w) && (0 <=? w_hb w) && (w_hb w + tdrv <? w_now w)); [rewrite (C2 eq_refl)|]; reflexivity).
+      assert (Q3 : (w_tprev w + KEEPALIVE_TIMEOUT_MS <? w_now w) && w_bound w && negb (w_hbenv w =? 1) && negb (has_err EHeartbeatLost (cbs1 ++ cbs2) && closed s2) = false)
+        by (destruct ((w_tprev w + KEEPALIVE_TIMEOUT_MS <? w_now w) && w_bound w && negb (w_hbenv w =? 1)); [rewrite (C3 eq_refl)|]; reflexivity).
+      rewrite Q1, Q0, Q2, Q3. eexists; split; [reflexivity|exact C4].
 Qed.
 
 Lemma core_run c0 tdrv tis ops : forall w s,
